@@ -191,10 +191,11 @@ static std::string exec(const std::vector<std::string>& t) {
         else if (o == "sort") p.sort();
         else if (o == "clear") p.clear();
         else if (o == "size") r = std::to_string(p.size());
-        else if (o == "str") r = hx(p.to_string());
+        else if (o == "str") r = op == "sp" ? hx(p.to_string()) : std::string("?");   // psp: driver.cpp has no "str" (str= is part of every psp answer)
         else if (o == "copy") p = g_params[std::atoi(t[3].c_str())];
         else if (o == "assign") p = g_params[std::atoi(t[3].c_str())];
         else if (o == "safea") p.safe_assign(std::move(g_params[std::atoi(t[3].c_str())]));
+        else if (o == "fromurl" && !g_url[std::atoi(t[3].c_str())].is_valid()) r = "?";
         else if (o == "fromurl") { upa::url_search_params c(g_url[std::atoi(t[3].c_str())].search_params()); p = c; }
         else r = "?";
         if (op == "sp") return "r=" + r + " " + public_dump(g_url[k]) + (g_url[k].is_valid() ? " sp=" + pairs_str(p) : std::string(" sp=?"));
